@@ -190,3 +190,38 @@ pub open spec fn br_gen_row(s: Seq<char>, generated: Seq<String>, ii: int, x: Se
 pub open spec fn br_cat2(x: Brick, y: Brick, w: Seq<char>) -> bool {
     exists |u: Seq<char>, v: Seq<char>| #![trigger u + v] x.br_gamma(u) && y.br_gamma(v) && w =~= u + v
 }
+
+// ---------------- normalize ---------------------------------------------------------------------------------------------------
+
+/// upper bound of a brick value as a number (Top bricks are never merged by normalize: 0)
+pub open spec fn br_max_of(b: BrickDomain) -> nat {
+    match b { BrickDomain::Top => 0, BrickDomain::Value(x) => x.max as nat }
+}
+
+/// sum of the upper bounds of the bricks of a list: rule 4 of normalize adds upper bounds of neighbours in u32
+pub open spec fn br_max_sum(l: Seq<BrickDomain>) -> nat
+    decreases l.len()
+{
+    if l.len() == 0 { 0 } else { br_max_sum(l.drop_last()) + br_max_of(l.last()) }
+}
+
+/// the two lists represent the same strings
+pub open spec fn br_list_equiv(a: Seq<BrickDomain>, b: Seq<BrickDomain>) -> bool {
+    forall |w: Seq<char>| #![trigger br_list_gamma(a, w)] #![trigger br_list_gamma(b, w)] br_list_gamma(a, w) <==> br_list_gamma(b, w)
+}
+
+/// w = u + v for a member u of the first set and a member v of the second (cartesian product, concatenated)
+pub open spec fn br_product(a: Set<String>, b: Set<String>, w: Seq<char>) -> bool {
+    exists |u: Seq<char>, v: Seq<char>| #![trigger u + v] br_member(a, u) && br_member(b, v) && w =~= u + v
+}
+
+/// every brick of the list has an upper bound within the interval threshold of the widening (Top bricks: none)
+pub open spec fn br_list_small(l: Seq<BrickDomain>) -> bool {
+    forall |i: int| 0 <= i < l.len() ==> br_max_of(#[trigger] l[i]) <= INTERVAL_THRESHOLD
+}
+
+impl BricksDomain {
+    pub open spec fn br_small(&self) -> bool {
+        match *self { BricksDomain::Top => true, BricksDomain::Value(l) => br_list_small(l@) }
+    }
+}
